@@ -161,6 +161,16 @@ func runC16(c *Ctx) {
 				}
 			}
 		}
+		// Reset and NewLexer are interpreted (a store of a whole struct value counts field by field; helpers
+		// and Reset called from the constructor are followed); the syntactic tables R / init are the fallback
+		rn := reset.Params[0].Name()
+		ro := InterpretSafe(&Region{Fn: reset}, &MapWorld{})
+		no := InterpretSafe(&Region{Fn: newl}, &MapWorld{})
+		newObj := ""
+		if no.Term == "return" && len(no.Results) == 1 {
+			newObj = strings.TrimPrefix(no.Results[0], "&")
+		}
+		interp := ro.Term == "return" && newObj != ""
 		for _, f := range ws {
 			rv, ok := R[f]
 			want := init[f]
@@ -168,8 +178,61 @@ func runC16(c *Ctx) {
 			if ok {
 				got = valueText(rv)
 			}
+			if interp {
+				want = no.Stores[newObj+"."+f]
+				got, ok = ro.Stores[rn+"."+f]
+				if !ok {
+					got = "(not assigned)"
+				}
+			}
 			c.Ob("R16.2", fmt.Sprintf("%s: Lexer.Reset restores %s", d, f), ok && got == want,
 				fmt.Sprintf("Scan mutates Lexer.%s; NewLexer initialises it to %s; Reset assigns %s — a reused lexer must start from the same state as a fresh one (witness on HEAD: scan \"x\\nx\", Reset, scan: first token reported on line 2)", f, want, got), p.FnPos(reset))
+		}
+		// what Scan never changes belongs to the lexer as it was made (the source, the Context that every
+		// token position carries): Reset leaves it alone
+		if interp {
+			isW := map[string]bool{}
+			for _, f := range ws {
+				isW[f] = true
+			}
+			var changed []string
+			nOther := 0
+			for _, g := range structFieldNames(sp, "Lexer") {
+				if isW[g] {
+					continue
+				}
+				nOther++
+				v, stored := ro.Stores[rn+"."+g]
+				if !stored {
+					continue
+				}
+				old := rn + "." + g
+				if v != old && v != "*"+old && v != "&*"+old {
+					changed = append(changed, fmt.Sprintf("%s := %s", g, v))
+				}
+			}
+			// struct-valued fields are stored cell by cell: any cell below a field that Scan does not touch
+			for k, v := range ro.Stores {
+				if !strings.HasPrefix(k, rn+".") {
+					continue
+				}
+				rest := strings.TrimPrefix(k, rn+".")
+				top := rest
+				if i := strings.IndexAny(rest, ".["); i >= 0 {
+					top = rest[:i]
+				}
+				if top == rest || isW[top] {
+					continue
+				}
+				if v != k && v != "*"+k && v != "&*"+k {
+					changed = append(changed, fmt.Sprintf("%s := %s", rest, v))
+				}
+			}
+			sort.Strings(changed)
+			c.Ob("R16.2", d+": Lexer.Reset leaves the other fields alone", len(changed) == 0,
+				fmt.Sprintf("%d fields of Lexer that Scan never assigns; Reset changes %v — a lexer made with a Context (NewLexerFile) must hand out the same token positions after Reset as before", nOther, changed), p.FnPos(reset))
+		} else {
+			c.Undecided("R16.2", d+": Lexer.Reset leaves the other fields alone", fmt.Sprintf("Reset / NewLexer could not be interpreted (%s %s / %s %s)", ro.Term, ro.Undecided, no.Term, no.Undecided))
 		}
 		c.Sample(map[string]any{"rule": "R16.2", "variant": d, "fields_mutated_by_Scan": ws, "NewLexer_init": init})
 	}
